@@ -17,8 +17,8 @@ Mirrors, in the C's order of side effects,
 
 A module's *content* is abstract (`ModSrc`: what the bookkeeping looks at — features, imports, has data / groupings,
 augment / deviation / leafref / grouping targets).  Errors inside the content (syntax, unresolved typedef, bad leafref, …) are
-not computed but *injected*: `Flt stage module = some rc` makes the step of that stage concerning that module fail with
-`rc`.  Failures the bookkeeping itself decides (unresolved import, unknown feature, unsatisfied if-feature, second implemented
+not computed but *injected*: `ModSrc.faults` lists (stage, LY_ERR) pairs, and the step of that stage concerning that module
+fails with that code whenever it is reached — so quantifying over all sources quantifies over all failure points.  Failures the bookkeeping itself decides (unresolved import, unknown feature, unsatisfied if-feature, second implemented
 revision, namespace clash) are computed.  Nothing is idealised: `lys_set_features` flips flags in place before anything can
 fail (F4), the previous latest revision loses its flag for good (F50), `LYS_MOD_IMPORTED_REV` sticks (F52), the pending batch of
 an explicit-compile context is dropped as a whole (F51), recompilation issues fresh compiled modules (F24), and the feature
@@ -35,6 +35,16 @@ structure FeatSrc where
   iff : Option Bytes                  -- first `if-feature` of the feature (the only one `lys_check_features` evaluates)
 deriving DecidableEq, Repr, Inhabited
 
+/-- the processing stage at which an error inside a module's content is detected -/
+inductive Stage
+  | syntax    -- `yang_parse_module`: nothing has happened yet
+  | late      -- rest of `lys_parse_in` after the module was added and its imports resolved (include, name collisions,
+              -- if-feature of features, identity bases)
+  | impl      -- `lys_precompile_augments_deviations`: target module of an augment / deviation
+  | compile   -- `lys_compile` of this module (typedef / grouping resolution, when / must syntax, duplicate nodes, …)
+  | unres     -- `lys_compile_unres_depset`: leafref / when / must / default checks of the dependency set
+deriving DecidableEq, Repr, Inhabited
+
 structure ModSrc where
   name : Bytes
   rev : Bytes
@@ -48,7 +58,13 @@ structure ModSrc where
   deviations : List Bytes
   lrefs : List Bytes                  -- modules referenced by leafref paths
   usesGrp : List Bytes                -- imports whose grouping (with if-feature'd nodes) is instantiated
+  idBase : List Bytes := []           -- imports an identity of this module is derived from (shown by the base module's print)
+  faults : List (Stage × Nat) := []   -- injected failures: the stage fails with this LY_ERR whenever it is reached
+  badAmend : List (Bytes × Nat) := [] -- injected: an augment / deviation of this module whose target node does not exist in the
+                                      -- named import: `lys_compile` of THAT module fails while this one is in its augmented_by / deviated_by
 deriving DecidableEq, Repr, Inhabited
+
+def ModSrc.fault (m : ModSrc) (st : Stage) : Option Nat := (m.faults.find? (fun f => f.1 == st)).map (·.2)
 
 structure Feat where
   name : Bytes
@@ -103,13 +119,6 @@ structure Ctx where
   depSets : List (List MKey) := []    -- `ctx->unres.dep_sets`
   repo : List ModSrc := []            -- what the import callback serves
 deriving Repr, Inhabited
-
-inductive Stage | syntax | late | impl | compile | unres
-deriving DecidableEq, Repr, Inhabited
-
-/-- failure injection: `flt stage moduleName = some rc` -/
-abbrev Flt := Stage → Bytes → Option Nat
-def noFault : Flt := fun _ _ => none
 
 -- LY_ERR values
 def EINVAL : Nat := 3
@@ -274,10 +283,10 @@ def latestDecision (s : Ctx) (src : ModSrc) : Option MKey × Latest :=
 mutual
 /-- `lys_parse_in` (+ `lysp_resolve_import_include`); `check = some rev?` when called through the import callback
     (`lysp_load_module_check`).  Returns the key of the module now in the context. -/
-def parseIn (flt : Flt) : Nat → ModSrc → Option (Option Bytes) → M MKey
+def parseIn : Nat → ModSrc → Option (Option Bytes) → M MKey
   | 0, _, _ => failS EINT
   | fuel + 1, src, check => do
-    match flt .syntax src.name with
+    match src.fault .syntax with
     | some rc => failS rc
     | none =>
       let s ← getS
@@ -305,16 +314,16 @@ def parseIn (flt : Flt) : Nat → ModSrc → Option (Option Bytes) → M MKey
             modS fun s => { s with mods := s.mods ++ [{ newMod src lflags with parsing := true }],
                                    creating := s.creating ++ [k], changeCount := s.changeCount + 1 }
             forEach src.imports fun (iname, irev) => do
-              let t ← parseLoad flt fuel iname (if irev.isEmpty then none else some irev)
+              let t ← parseLoad fuel iname (if irev.isEmpty then none else some irev)
               (if irev.isEmpty then updM t fun m => { m with latest := { m.latest with imp := true } } else pure ())
               updM k fun m => { m with impRes := m.impRes ++ [t] }
             updM k fun m => { m with parsing := false }
-            match flt .late src.name with
+            match src.fault .late with
             | some rc => failS rc
             | none => pure k
 
 /-- `lys_parse_load` with `lys_parse_load_from_clb_or_file` on the callback route (search dirs disabled) -/
-def parseLoad (flt : Flt) : Nat → Bytes → Option Bytes → M MKey
+def parseLoad : Nat → Bytes → Option Bytes → M MKey
   | 0, _, _ => failS EINT
   | fuel + 1, name, rev => do
     let s ← getS
@@ -332,7 +341,7 @@ def parseLoad (flt : Flt) : Nat → Bytes → Option Bytes → M MKey
           | none => false
         let got : Option MKey ← (if skip then pure none else
           match repoFind s.repo name rev with
-          | some src => attempt (parseIn flt fuel src (some rev))
+          | some src => attempt (parseIn fuel src (some rev))
           | none => pure none)
         match got with
         | some g => do
@@ -401,7 +410,7 @@ def foldTargets (k : MKey) (isAug : Bool) : List Bytes → List MKey → M (List
 
 /-- `lys_implement` without the feature part: implemented, to_compile, `implementing`, augment/deviation targets,
     compiled imports.  Returns `true` for LY_ERECOMPILE. -/
-def implementCore (flt : Flt) : Nat → MKey → M Bool
+def implementCore : Nat → MKey → M Bool
   | 0, _ => failS EINT
   | fuel + 1, k => do
     let s ← getS
@@ -415,7 +424,7 @@ def implementCore (flt : Flt) : Nat → MKey → M Bool
         modS fun s => { (s.upd k fun x => { x with implemented := true, toCompile := true }) with
                         implementing := s.implementing ++ [k] }
         -- lys_precompile_augments_deviations
-        match flt .impl m.src.name with
+        match m.src.fault .impl with
         | some rc => failS rc
         | none =>
           let set1 ← foldTargets k true m.src.augments []
@@ -427,7 +436,7 @@ def implementCore (flt : Flt) : Nat → MKey → M Bool
               | none => pure rec
               | some tm =>
                 if !tm.implemented then do
-                  let r ← implementCore flt fuel t
+                  let r ← implementCore fuel t
                   pure (rec || r)
                 else if tm.compiled.isSome then do
                   updM t fun x => { x with toCompile := true }
@@ -436,7 +445,7 @@ def implementCore (flt : Flt) : Nat → MKey → M Bool
           if rec1 then pure true else hasCompiledImportR (fuel + 1) k
 
 /-- `lys_implement(mod, features, unres)` for a module that is not implemented -/
-def implement (flt : Flt) (k : MKey) (arg : FeatArg) : M Bool := do
+def implement (k : MKey) (arg : FeatArg) : M Bool := do
   let s ← getS
   match s.find k with
   | none => failS EINT
@@ -448,10 +457,10 @@ def implement (flt : Flt) (k : MKey) (arg : FeatArg) : M Bool := do
       | none => failS EINVAL
       | some (m', _) => do
         updM k fun _ => m'
-        implementCore flt (s.mods.length + 2) k
+        implementCore (s.mods.length + 2) k
 
 /-- `_lys_set_implemented` -/
-def setImplementedInner (flt : Flt) (k : MKey) (arg : FeatArg) : M Unit := do
+def setImplementedInner (k : MKey) (arg : FeatArg) : M Unit := do
   let s ← getS
   match s.find k with
   | none => failS EINT
@@ -463,7 +472,7 @@ def setImplementedInner (flt : Flt) (k : MKey) (arg : FeatArg) : M Unit := do
         if changed then updM k fun _ => { m' with toCompile := true }     -- the flags are flipped in place (F4)
         else pure ()
     else do
-      let _ ← implement flt k arg
+      let _ ← implement k arg
       pure ()
 
 /-! ## dependency sets (`lys_unres_dep_sets_create`) -/
@@ -568,22 +577,44 @@ def depSetsM (mod : Option MKey) : M Unit := modS fun s =>
 
 /-! ## compiling (`lys_compile_depset_all`) -/
 
+/-- does `lys_compile` of `m` fail?  Its own content, or an augment / deviation of a module listed in
+    `augmented_by` / `deviated_by` that does not apply -/
+def compileFault (s : Ctx) (m : Mod) : Option Nat :=
+  match m.src.fault .compile with
+  | some rc => some rc
+  | none => (m.augBy ++ m.devBy).findSome? fun a => match s.find a with
+    | some am => (am.src.badAmend.find? fun t => am.impKey t.1 == some m.key).map (·.2)
+    | none => none
+
+/-- `lys_compile(mod)`: counts, then fails or installs the new compiled module -/
+def compileChecked (k : MKey) : M Unit := do
+  let s ← getS
+  match s.find k with
+  | none => pure ()
+  | some m =>
+    match compileFault s m with
+    | some rc => do
+      -- `lys_compile` counts before it can fail
+      modS fun s => { s with changeCount := s.changeCount + 1 }
+      failS rc
+    | none => compileOne k
+
 /-- `lys_compile_unres_depset_implement`, leafref part, followed by the checks of the unres sets.
     `work` = modules compiled in this round, in order; returns `true` for LY_ERECOMPILE. -/
-def unresLoop (flt : Flt) : Nat → List MKey → List MKey → M Bool
+def unresLoop : Nat → List MKey → List MKey → M Bool
   | 0, _, _ => pure false
   | _ + 1, [], done => do
     -- leafref / when / must / default checks of everything compiled in this round
     let s ← getS
     match done.findSome? (fun k => match s.find k with
-        | some m => flt .unres m.src.name
+        | some m => m.src.fault .unres
         | none => none) with
     | some rc => failS rc
     | none => pure false
   | fuel + 1, k :: rest, done => do
     let s ← getS
     match s.find k with
-    | none => unresLoop flt fuel rest done
+    | none => unresLoop fuel rest done
     | some m =>
       let (rec, extra) ← foldlS m.src.lrefs ((false, []) : Bool × List MKey) fun (st : Bool × List MKey) tn =>
         if st.1 then pure st else
@@ -594,17 +625,17 @@ def unresLoop (flt : Flt) : Nat → List MKey → List MKey → M Bool
           match s.find tk with
           | none => pure st
           | some t => do
-            let r ← (if !t.implemented then implement flt tk none else pure false)
+            let r ← (if !t.implemented then implement tk none else pure false)
             if r then pure (true, st.2) else do
               let s' ← getS
               if ((s'.find tk).map (·.compiled.isNone)).getD false then do
-                compileOne tk
+                compileChecked tk
                 pure (false, st.2 ++ [tk])
               else pure st
-      if rec then pure true else unresLoop flt fuel (rest ++ extra) (done ++ [k])
+      if rec then pure true else unresLoop fuel (rest ++ extra) (done ++ [k])
 
 /-- `lys_compile_depset_r` -/
-def depsetR (flt : Flt) : Nat → List MKey → M Unit
+def depsetR : Nat → List MKey → M Unit
   | 0, _ => failS EINT
   | fuel + 1, ds => do
     let work ← foldlS ds ([] : List MKey) fun work k => do
@@ -614,14 +645,11 @@ def depsetR (flt : Flt) : Nat → List MKey → M Unit
       | some m =>
         if !m.toCompile then pure work else do
           updM k fun x => { x with compiled := none }
-          match flt .compile m.src.name with
-          | some rc => failS rc
-          | none => do
-            compileOne k
-            pure (work ++ [k])
+          compileChecked k
+          pure (work ++ [k])
     let s ← getS
-    let rec ← unresLoop flt (2 * s.mods.length + 2) work []
-    if rec then depsetR flt fuel ds
+    let rec ← unresLoop (2 * s.mods.length + 2) work []
+    if rec then depsetR fuel ds
     else forEach ds fun k => updM k fun x => { x with toCompile := false }
 
 /-- `lys_compile_depset_check_features` -/
@@ -631,12 +659,12 @@ def checkFeatures (ds : List MKey) : M Unit := do
       | some m => !m.toCompile || m.featuresOk
       | none => true) then pure () else failS EDENIED
 
-def compileAll (flt : Flt) : M Unit := do
+def compileAll : M Unit := do
   let s ← getS
   forEach s.depSets fun ds => do
     checkFeatures ds
     let s' ← getS
-    depsetR flt (s'.mods.length + 2) ds
+    depsetR (s'.mods.length + 2) ds
 
 /-! ## revert and erase -/
 
@@ -661,7 +689,7 @@ def removeCreated (s : Ctx) : Ctx :=
 def revert (s : Ctx) : Ctx :=
   let s1 := s.implementing.foldl unimplement s
   let s2 := removeCreated s1
-  if s.implementing.isEmpty then s2 else (compileAll noFault s2).2
+  if s.implementing.isEmpty then s2 else (compileAll s2).2
 
 /-- `lys_unres_glob_erase` -/
 def erase (s : Ctx) : Ctx := { s with depSets := [], implementing := [], creating := [] }
@@ -680,51 +708,52 @@ deriving Repr, Inhabited
 def parseFuel (s : Ctx) : Nat := s.repo.length + s.mods.length + 3
 
 /-- implement + (unless explicit compile) dep set of the module + compile + erase -/
-def implementAndCompile (flt : Flt) (k : MKey) (feats : FeatArg) : M Unit := do
-  setImplementedInner flt k feats
+def implementAndCompile (k : MKey) (feats : FeatArg) : M Unit := do
+  setImplementedInner k feats
   let s ← getS
   if s.explicit then pure () else do
     depSetsM (some k)
-    compileAll flt
+    compileAll
     modS erase
 
 /-- the part of an operation before the error handling -/
-def forward (flt : Flt) : Op → M Unit
+def forward : Op → M Unit
   | .parse src feats => do
     let s ← getS
-    let k ← parseIn flt (parseFuel s) src none
-    implementAndCompile flt k feats
+    let k ← parseIn (parseFuel s) src none
+    implementAndCompile k feats
   | .load name rev feats => do
     let s ← getS
-    let k ← parseLoad flt (parseFuel s) name rev
-    implementAndCompile flt k feats
-  | .setImpl k feats => do
-    let s ← getS
-    match s.find k with
-    | none => failS ENOTFOUND
-    | some _ => implementAndCompile flt k feats
+    let k ← parseLoad (parseFuel s) name rev
+    implementAndCompile k feats
+  | .setImpl k feats => implementAndCompile k feats
   | .compile => do
     depSetsM none
-    compileAll flt
+    compileAll
   | .setOpt ex pp => do
     let s ← getS
     (if pp && !s.privParsed then do
-      modS fun s => { s with privParsed := true,
+      modS fun s => { s with privParsed := true, changeCount := s.changeCount + 4,   -- the four implemented internal modules
                              mods := s.mods.map fun m => if m.implemented then { m with toCompile := true } else m }
       depSetsM none
-      compileAll flt
+      compileAll
      else pure ())
     modS fun s => { s with explicit := s.explicit || ex, privParsed := s.privParsed || pp }
   | .unsetOpt ex pp =>
     modS fun s => { s with explicit := s.explicit && !ex, privParsed := s.privParsed && !pp }
 
 /-- an API call: forward part, then on error `lys_unres_glob_revert` + `lys_unres_glob_erase` -/
-def run (s : Ctx) (op : Op) (flt : Flt) : Except Nat Unit × Ctx :=
-  match forward flt op s with
+def run (s : Ctx) (op : Op) : Except Nat Unit × Ctx :=
+  match (match op with
+         | .setImpl k _ => (s.find k).isNone      -- there is no `struct lys_module *` to call the function with
+         | _ => false) with
+  | true => (.error ENOTFOUND, s)
+  | false =>
+  match forward op s with
   | (.ok (), s1) =>
     match op with
     | .compile => (.ok (), erase s1)
-    | .setOpt _ pp => (.ok (), if pp then erase s1 else s1)
+    | .setOpt _ pp => (.ok (), if pp && !s.privParsed then erase s1 else s1)     -- `ly_ctx_compile` erases
     | _ => (.ok (), s1)
   | (.error e, s1) =>
     match op with
